@@ -81,15 +81,29 @@ DeferredCreatorCycle(db) ==
   \E s \in Steps(db) : ~db.nodes[s].detached /\ db.nodes[s].sstate = "PENDING" /\ db.nodes[s].deferred
      /\ \E t \in Products(db, s) : db.nodes[t].kind = "step" /\ ~db.nodes[t].detached
                                    /\ db.nodes[t].sstate = "PENDING"
+DeferCapExceeded(db) == \E s \in Steps(db) : db.nodes[s].sstate = "FAILED" /\ db.nodes[s].deferCount >= 100
+\* "whether a build succeeds or fails": success against everything else (a build that is cut short
+\* after a failure and one that ends with steps pending both did not succeed; which of the two it is
+\* depends by design on how often a step is retried before the defer cap is reached)
 SameFinal(e) ==
-  (IF RcClass(e.a.rc) # RcClass(e.b.rc)
+  (IF Success(e.a.rc) # Success(e.b.rc)
    THEN {<<"success_depends_on_schedule", <<e.a.rc, e.b.rc>>,
            IF (RcClass(e.a.rc) = "pending" /\ Success(e.b.rc) /\ DeferredCreatorCycle(e.a.state))
               \/ (RcClass(e.b.rc) = "pending" /\ Success(e.a.rc) /\ DeferredCreatorCycle(e.b.state))
            THEN "F8-deferred-creator-cycle-depends-on-schedule"
            ELSE IF (RcClass(e.a.rc) = "failed" /\ Success(e.b.rc) /\ StaleDefinerConflict(e.a))
                    \/ (RcClass(e.b.rc) = "failed" /\ Success(e.a.rc) /\ StaleDefinerConflict(e.b))
-           THEN "F17-step-moved-between-plans-depends-on-schedule" ELSE "">>}
+           THEN "F17-step-moved-between-plans-depends-on-schedule"
+           \* F15 + F23: a consumer of a former output that nothing produces any more is recycled as done
+           \* when the detached file still remembers BUILT, and is pending when a schedule outdated it
+           ELSE IF (Success(e.a.rc) /\ DoneOnWithdrawnInput(e.a.state)) \/ (Success(e.b.rc) /\ DoneOnWithdrawnInput(e.b.state))
+           THEN "F15-step-done-on-withdrawn-input-depends-on-schedule"
+           \* F11: a pattern registered after a step planned a matching output is accepted, the other order is rejected
+           ELSE IF (e.a.globprod # <<>> /\ Success(e.b.rc)) \/ (e.b.globprod # <<>> /\ Success(e.a.rc))
+           THEN "F11-glob-after-planned-output-depends-on-schedule"
+           \* F8: a step that was retried until the defer cap was exceeded under one schedule only
+           ELSE IF (~Success(e.a.rc) /\ DeferCapExceeded(e.a.state)) \/ (~Success(e.b.rc) /\ DeferCapExceeded(e.b.state))
+           THEN "F8-defer-cap-exceeded-depends-on-schedule" ELSE "">>}
    ELSE {})
   \cup (IF Success(e.a.rc) /\ Success(e.b.rc)
         THEN Canon2Diff(e.a.state, e.b.state)
